@@ -151,10 +151,17 @@ func getFields(n map[string]ast.Node) (map[string]fields.Field, error) {
 
 			switch x := n.(type) {
 			case *ast.Field:
-				if len(x.Names) == 1 && !isPrivate(x) {
-					f, skip := getField(x.Names[0].Name, x, nil)
-					if !skip {
-						parent.Children = append(parent.Children, f)
+				if len(x.Names) > 0 {
+					// one declaration may list several names ("A, b int32"):
+					// every exported name is a field of its own
+					for _, name := range x.Names {
+						if !ast.IsExported(name.Name) {
+							continue
+						}
+						f, skip := getField(name.Name, x, nil)
+						if !skip {
+							parent.Children = append(parent.Children, f)
+						}
 					}
 				} else if len(x.Names) == 0 && !isPrivate(x) {
 					f, skip := getField(fmt.Sprintf("%s", x.Type), x, nil)
